@@ -70,7 +70,7 @@ def doneFrame (w : World) (pkt : Flushed) : LogEntry :=
   | .control a => { net := w.nets.length, tag := .control a, bytes := ((encodeControl a).toOption).getD [] }
   | .release id =>
     (match o.release.find? (fun e => e.id == id) with
-     | some e => { net := w.nets.length, tag := .release id e.rc, bytes := ((encodePubrel id e.rc).toOption).getD [] }
+     | some e => { net := w.nets.length, tag := .release e.rser e.pser id e.rc, bytes := ((encodePubrel id e.rc).toOption).getD [] }
      | none => { net := w.nets.length, tag := .unknown, bytes := [] })
   | .retained id =>
     (match o.retained.find? (fun e => e.id == id) with
